@@ -33,7 +33,8 @@ func init() {
 		Rule: "explicit-state search over signing histories on the real PECOFFBinary: initial states = well-formed images (6 synthetic layouts covering both formats, unordered sections, gaps, trailing data, size mod 8 in {0,1,3,5,7}; the same layouts carrying a third-party certificate table; the repository's test.pecoff and test.pecoff.signed); " +
 			"transitions = Sign with an RSA-2048 / 3072 / 4096 key (self-signed certificates), with a CA-issued leaf certificate (issuer != subject), also by a key that already signed, and reparse (Parse(Bytes())); a state is (output bytes, number of in-place signatures since the last parse), deduplicated exactly; " +
 			"in every state an independent reader checks the output file: original bytes preserved except the directory entry, zero padding to 8, 8-aligned table spanning exactly to EOF, every entry revision 0x0200 / type 0x0002 / dwLength = 8 + blob length, every blob's embedded digest = the unpadded specification digest of the output file itself, " +
-			"Parse(out).Hash == digest before signing, Verify true for exactly the certificates that signed (false for the others and for same-issuer+serial-other-key)",
+			"Parse(out).Hash == digest before signing, Verify true for exactly the certificates that signed (false for the others and for same-issuer+serial-other-key); Open() delivers the bytes of Bytes() for one reader, for two readers read in turns and for a reader read across Bytes()/Hash(); AppendSignature of a signature made on a re-parsed copy is a transition too; " +
+			"every history is run a second time with all read-only operations (Verify for every key, Hash, Signatures, Bytes, Open) called between the steps: same output bytes, same verdicts",
 		Assumptions: []string{"frozen clock and memoised deterministic signatures make equal histories byte-identical", "refpe/refp7 as in C01/C04"},
 		Units: func(tier string) []string {
 			var u []string
